@@ -390,6 +390,9 @@ ExportHonest ==
 \* ---- constant definitions for the .cfg files
 PV == [P1 |-> 3, P2 |-> 3, P6 |-> 6, T1 |-> 5]
 PVSplit == [P1 |-> 3, P12 |-> 3, T1 |-> 5]
+\* P7: a block that declares a public key (a `trusting` scope: Datalog 3.1)
+PVKeys == [P1 |-> 3, P7 |-> 4, T1 |-> 5]
+FPKeys == {"P1", "P7"}
 FPSplit == {"P1", "P12"}
 ModeMutations == {"Resplit", "SetExt", "SetVer", "Identity", "Forge", "Splice"}
 FP == {"P1", "P6"}
